@@ -23,6 +23,13 @@
      c.f              "none" or the one field changed after the `old` signatures were made
      c.gp0, c.gp      the gasPayer FIELD when the `old` signatures were made / as submitted: "absent" (no such member: the sender
                       pays) | "sender" (names the sender account) | "payer" (names P) | "payer2" (names Q); c.f = "gasPayer" iff they differ
+     c.over           the list of sender signatures the payer signatures (scheme "payer") were made OVER, as positions of the submitted
+                      list c.sigs (0: a signature that is not in it): <<1, .., Len(c.sigs)>> = the list that is submitted; a prefix = sender
+                      signatures were added after the payer signed; longer / with 0 = removed or replaced since; a permutation = re-ordered;
+                      <<1>> with c.sigs[1] a signature of another account = the payer's statement was given for ANOTHER transaction (whose
+                      sender signature was put in front of the real ones: a multi-signature sender's weight count ignores unknown keys)
+     c.via            the carrier in which the transaction reaches the node: "rlp" (p2p / blocks: an absent gasPayer member is the empty
+                      string in that slot) | "json" (RPC: the member is missing)
      c.box            "none" | "ok": the transaction travels inside a box signed by the box sender | "bad": the box
                       itself is signed by a foreign key | "old": the box sender signed BEFORE field c.f of the
                       sub-transaction was changed (c.f = "sigs": before its first sender signature was replaced); the
@@ -55,11 +62,12 @@ CONSTANTS Weights,      \* weights a registered signer may have
           PaySenders,   \* sender configurations used in the gas-payer sweeps
           PayFields,    \* fields tampered in the gas-payer sweep
           GpFields,     \* fields tampered (besides gasPayer itself) in the gasPayer-field sweep
+          MaxOver,      \* length of the sender-signature lists a payer's statement was made over (sweep "over")
           BoxCfgs,      \* sender configurations used in the box sweep
           Kinds,        \* transaction kinds (besides transfer) in the kind sweep
           ReconfCfgs,   \* sender configurations used in the re-configuration sweep
           NewCfgs,      \* target configurations of re-configuration transactions
-          Slices,       \* which sweeps are generated: subset of {"sigs","tamper","payer","junk","box","kinds","reconf","gp","stale"}
+          Slices,       \* which sweeps are generated: subset of {"sigs","tamper","payer","junk","box","kinds","reconf","gp","over","stale"}
           Dev           \* deviations switched on (design: {})
 
 Threshold == 100
@@ -77,6 +85,11 @@ Schemes == SenderSchemes \cup {"payer"}
 Covers(sch) == CASE sch = "default" -> Fields
                  [] sch = "reimb" -> Fields \ GasTerms
                  [] sch = "payer" -> GasTerms \cup {"sigs"}
+\* "sigs" in the payer's statement is the WHOLE list of sender signatures, in order (and through them the content): the statement counts only
+\* for the list it was made over
+Ident(n) == [i \in 1..n |-> i]
+SubmittedList(c) == Ident(Len(c.sigs))
+FirstOnly(s) == IF Len(s) > 1 THEN <<s[1]>> ELSE s
 GpVals == {"absent", "sender", "payer", "payer2"}
 \* the account a gasPayer field makes pay the gas
 PayerAcct(gp) == CASE gp \in {"absent", "sender"} -> "S" [] gp = "payer" -> "P" [] gp = "payer2" -> "Q"
@@ -109,8 +122,12 @@ BoxScope == Fields \cup {"sigs"}
 \* a signature counts iff it was made in the scheme its place demands and, when made before field f changed, f is outside what it covers.
 \* (Neg_GasPayerFallbackInHash, a WRONG signing hash used only by a negative control: the hash takes the gas payer through the accessor
 \* that substitutes the sender for an absent field, so a change between "absent" and "sender" is invisible to it.)
+\* (Neg_PayerSignsFirstSig, another WRONG signing hash: the payer's statement takes only the first of several sender signatures.)
 CountsD(D, role, c, s) == /\ \/ s.sch = Need(role, c)
                              \/ ("Neg_SchemeBlind" \in D /\ role = "sender" /\ s.sch \in SenderSchemes)
+                          /\ \/ role # "payer"
+                             \/ c.over = SubmittedList(c)
+                             \/ ("Neg_PayerSignsFirstSig" \in D /\ FirstOnly(c.over) = FirstOnly(SubmittedList(c)))
                           /\ \/ ~s.old
                              \/ c.f \notin Covers(s.sch)
                              \/ ("Neg_GasPayerFallbackInHash" \in D /\ c.f = "gasPayer" /\ PayerAcct(c.gp0) = PayerAcct(c.gp))
@@ -151,6 +168,7 @@ WellFormed(sigs) == \A i \in 1..Len(sigs) : sigs[i].by # Junk
 \*   Neg_BoxTrustsLabel           the box signing hash is built from what the sub-transaction's JSON form claims its hash to be
 \*   Neg_GasPayerFallbackInHash   (CountsD) the sender's signing hash does not tell an absent gasPayer field from one naming the sender
 \*   Neg_SchemeBlind              (CountsD) a sender signature is accepted whichever of the two sender schemes it was made in
+\*   Neg_PayerSignsFirstSig       (CountsD) the payer's signing hash covers only the first sender signature when there are several
 \*   Neg_StaleSigners             (Offer) the signers registered in the last stable block are consulted instead of the current ones
 BoxCheck(D, c) ==
   IF "Neg_BoxTrustsLabel" \notin D \/ c.box \in {"none", "bad"} THEN BoxOK(c)
@@ -172,7 +190,8 @@ Sig(b, v, o) == Sg(b, v, o, "default", "S")           \* (scheme and account are
 Retag(sigs, sch, who) == [i \in 1..Len(sigs) |-> [sigs[i] EXCEPT !.sch = sch, !.who = who]]
 \* the general case
 GCase(cfg, kind, sigs, f, g0, g, pcfg, psigs, box, ncfg) ==
-  [cfg |-> cfg, kind |-> kind, sigs |-> sigs, f |-> f, gp0 |-> g0, gp |-> g, pcfg |-> pcfg, psigs |-> psigs, box |-> box, ncfg |-> ncfg, label |-> "true"]
+  [cfg |-> cfg, kind |-> kind, sigs |-> sigs, f |-> f, gp0 |-> g0, gp |-> g, pcfg |-> pcfg, psigs |-> psigs, box |-> box, ncfg |-> ncfg, label |-> "true",
+   over |-> Ident(Len(sigs)), via |-> "rlp"]
 \* the three honest forms, every signature made in the scheme of its form:
 \*   pay = "self"   the sender pays (default form, gasPayer names the sender)
 \*         "payer"  another account P (configuration pcfg) pays; psigs are signatures of P's holders
@@ -184,6 +203,8 @@ Case(cfg, kind, sigs, f, pay, pcfg, psigs, box, ncfg) ==
   GCase(cfg, kind, IF pay = "self" THEN sigs ELSE Retag(sigs, "reimb", "S"), f, g0, IF f = "gasPayer" THEN "payer2" ELSE g0,
         pcfg, IF psigs = <<>> THEN <<>> ELSE Retag(psigs, "payer", IF pay = "payer" THEN "P" ELSE "S"), box, ncfg)
 Labelled(c, lb) == [c EXCEPT !.label = lb]
+Over(c, ov) == [c EXCEPT !.over = ov]
+Via(c, v) == [c EXCEPT !.via = v]
 Labels == {"true", "none", "kept", "wrong"}
 NoCase == Case(NoCfg, "none", <<>>, "none", "self", NoCfg, <<>>, "none", NoCfg)
 Plain(cfg, kind, sigs) == Case(cfg, kind, sigs, "none", "self", NoCfg, <<>>, "none", NoCfg)
@@ -222,21 +243,51 @@ JunkCases(cfg) == {Plain(cfg, "transfer", s) : s \in SeqsUpTo(FreshSigs(cfg) \cu
 \*     account sign in either sender scheme, before or after the change; payer signatures: none (dropped / never added), by the holders
 \*     of the account the field named before, by those of the account it names now (before / after a change they cover).  Also: the
 \*     sender's own signatures copied into the payer list, and payer-scheme signatures put into the sender list (role re-use).
-GpVariants(cfg, kind, g0, g, pc, f, box) ==
+GpVariantsN(cfg, kind, g0, g, pc, f, box, n) ==
   LET acfg(a) == CASE a = "S" -> cfg [] a = "P" -> pc [] a = "Q" -> <<>>
       olds == IF f \in {"none", "sigs"} THEN {FALSE} ELSE BOOLEAN     \* (no sender signature covers the signature bytes)
       polds == IF f \in Covers("payer") THEN BOOLEAN ELSE {FALSE}     \* (a payer signature made before a change outside what it covers: the same bytes)
       ss == {AllSign(cfg, "S", o, sch) : o \in olds, sch \in SenderSchemes}
       ps == {<<>>} \cup {AllSign(acfg(a), a, o, "payer") : a \in {PayerAcct(g0), PayerAcct(g)}, o \in polds} IN
-  {GCase(cfg, kind, s, f, g0, g, pc, p, box, NoCfg) : s \in ss, p \in ps} \cup
+  {GCase(cfg, kind, s, f, g0, g, pc, p, box, n) : s \in ss, p \in ps} \cup
   (IF f # "none" THEN {} ELSE
-     {GCase(cfg, kind, AllSign(cfg, "S", FALSE, "reimb"), f, g0, g, pc, AllSign(cfg, "S", FALSE, "reimb"), box, NoCfg),
-      GCase(cfg, kind, AllSign(cfg, "S", FALSE, "payer"), f, g0, g, pc, AllSign(acfg(PayerAcct(g)), PayerAcct(g), FALSE, "payer"), box, NoCfg)})
+     {GCase(cfg, kind, AllSign(cfg, "S", FALSE, "reimb"), f, g0, g, pc, AllSign(cfg, "S", FALSE, "reimb"), box, n),
+      GCase(cfg, kind, AllSign(cfg, "S", FALSE, "payer"), f, g0, g, pc, AllSign(acfg(PayerAcct(g)), PayerAcct(g), FALSE, "payer"), box, n)})
+GpVariants(cfg, kind, g0, g, pc, f, box) == GpVariantsN(cfg, kind, g0, g, pc, f, box, NoCfg)
 GpFieldsOf(g0, g) == IF g0 # g THEN {"gasPayer"} ELSE {"none"} \cup GpFields
 GpPayCfgs(g0, g) == IF "payer" \in {g0, g} THEN PayCfgs ELSE {NoCfg}
+\* every case of S also in the JSON carrier (the member missing / present as text)
+BothCarriers(S) == S \cup {Via(c, "json") : c \in S}
+GpCasesOf(cfg, fs) ==
+  UNION {UNION {UNION {GpVariants(cfg, "transfer", gg[1], gg[2], pc, f, "none") : f \in GpFieldsOf(gg[1], gg[2]) \cap fs} : pc \in GpPayCfgs(gg[1], gg[2])} : gg \in GpVals \X GpVals}
 GpCases(cfg) ==
   IF cfg \notin PaySenders THEN {} ELSE
-  UNION {UNION {UNION {GpVariants(cfg, "transfer", gg[1], gg[2], pc, f, "none") : f \in GpFieldsOf(gg[1], gg[2])} : pc \in GpPayCfgs(gg[1], gg[2])} : gg \in GpVals \X GpVals}
+  GpCasesOf(cfg, GpFields) \cup BothCarriers(GpCasesOf(cfg, {"none", "gasPayer"}))     \* (another field changed: one carrier)
+\* 3c'. the same for the other kinds of transaction (a vote, a re-configuration of the signers to n): the member absent / naming the sender /
+\*      naming another account; dropped, added or pointed elsewhere after the sender signatures (either scheme) were made; both carriers
+KindGpVals == {"absent", "sender", "payer2"}
+KindGpCases(cfg, k, n) ==
+  IF "gp" \notin Slices \/ cfg \notin PaySenders THEN {} ELSE
+  BothCarriers(UNION {GpVariantsN(cfg, k, gg[1], gg[2], NoCfg, IF gg[1] = gg[2] THEN "none" ELSE "gasPayer", "none", n) : gg \in KindGpVals \X KindGpVals})
+\* 3d. WHAT THE PAYER'S STATEMENT COMMITS TO WHEN THE SENDER HAS SEVERAL SIGNATURES.  The submitted list of sender signatures: those of the
+\*     sender's holders, alone or with the sender signature of ANOTHER transaction (another account's key: a multi-signature sender's weight
+\*     count ignores it) in front / in between / behind.  The holders of the account that pays (another account of every payer configuration,
+\*     or the sender account itself) made their statement over the list ov: every sequence of at most MaxOver positions of the submitted list
+\*     and 0 (a signature that is not in it) - the submitted list, its first element, a prefix (sender signatures added after the payer
+\*     signed), a longer list (removed since), a re-ordering, nothing at all, the list of the other transaction (<<i>>, i the position of
+\*     the foreign signature: a payer's statement moved from the transaction it was given for onto this one)
+AlienSig == Sg(Own, 0, FALSE, "reimb", "Q")
+InsertAt(s, i, x) == [j \in 1..(Len(s) + 1) |-> IF j < i THEN s[j] ELSE IF j = i THEN x ELSE s[j - 1]]
+OverSenders(cfg) == LET hs == AllSign(cfg, "S", FALSE, "reimb") IN {hs} \cup {InsertAt(hs, i, AlienSig) : i \in 1..(Len(hs) + 1)}
+Min(a, b) == IF a < b THEN a ELSE b
+OverCasesOf(cfg, pays, box, n) ==
+  UNION {UNION {{Over(GCase(cfg, "transfer", ss, "none", pp[1], pp[1], pp[3], AllSign(pp[3], pp[2], FALSE, "payer"), box, NoCfg), ov) :
+                   ov \in SeqsUpTo(0..Len(ss), Min(Len(ss) + 1, n))} : ss \in OverSenders(cfg)} : pp \in pays}
+\* (as a sub-transaction of a box: statements over at most two signatures, a plain other account pays)
+OverCases(cfg) ==
+  IF cfg \notin PaySenders THEN {} ELSE
+  OverCasesOf(cfg, {<<"payer", "P", pc>> : pc \in PayCfgs} \cup {<<"sender", "S", cfg>>}, "none", MaxOver) \cup
+  (IF cfg \in BoxCfgs /\ "box" \in Slices THEN OverCasesOf(cfg, {<<"payer", "P", <<>>>>}, "ok", Min(2, MaxOver)) ELSE {})
 \* 4a. the box data is not what the node's encoder would have written for the box that was signed
 BoxFields == (TamperFields \ {"version"}) \cup {"sigs"}
 BoxForgeCases(cfg) ==
@@ -253,9 +304,10 @@ BoxForgeCases(cfg) ==
 \* 4b. a sub-transaction whose gasPayer member is absent / names its sender / names another account, the member dropped, added or
 \*     pointed elsewhere before / after the box sender signed (all the signature variants of 3c)
 BoxGpVals == {"absent", "sender", "payer2"}
-BoxGpCases(cfg) ==
-  UNION {UNION {GpVariants(cfg, "transfer", gg[1], gg[2], NoCfg, IF gg[1] = gg[2] THEN "none" ELSE "gasPayer", b) :
+BoxGpOf(cfg, k) ==
+  UNION {UNION {GpVariants(cfg, k, gg[1], gg[2], NoCfg, IF gg[1] = gg[2] THEN "none" ELSE "gasPayer", b) :
                   b \in (IF gg[1] = gg[2] THEN {"ok"} ELSE {"ok", "old"})} : gg \in BoxGpVals \X BoxGpVals}
+BoxGpCases(cfg) == BoxGpOf(cfg, "transfer") \cup (IF cfg \in PaySenders /\ "vote" \in Kinds THEN BoxGpOf(cfg, "vote") ELSE {})
 \* 4. inside a box (also: a reimbursed transaction inside a box)
 BoxCases(cfg) ==
   IF cfg \notin BoxCfgs THEN {} ELSE
@@ -270,18 +322,20 @@ KindCases(cfg) ==
   {Case(cfg, k, SigsOf(Full(cfg), TRUE), f, "self", NoCfg, <<>>, "none", NoCfg) : k \in Kinds \cap {"vote"}, f \in TamperFields \cap {"to", "data", "type", "amount"}} \cup
   \* the account reimburses itself: honest / gas terms changed after every signature was made
   {Case(cfg, k, SigsOf(Full(cfg), f # "none"), f, "own", cfg, SigsOf(Full(cfg), f # "none"), "none", NoCfg) : k \in Kinds, f \in {"none"} \cup (TamperFields \cap GasTerms)} \cup
-  \* no gasPayer member: honest; the member dropped / added after every signature was made
+  \* no gasPayer member: honest; the member dropped / added after every signature was made (all the variants of 3c for the PaySenders)
   (IF "gp" \notin Slices THEN {} ELSE
    {GCase(cfg, k, AllSign(cfg, "S", gg[1] # gg[2], "default"), IF gg[1] = gg[2] THEN "none" ELSE "gasPayer", gg[1], gg[2], NoCfg, <<>>, "none", NoCfg) :
-      k \in Kinds, gg \in {<<"absent", "absent">>, <<"sender", "absent">>, <<"absent", "sender">>}})
+      k \in Kinds, gg \in {<<"absent", "absent">>, <<"sender", "absent">>, <<"absent", "sender">>}}) \cup
+  UNION {KindGpCases(cfg, k, NoCfg) : k \in Kinds \cap {"vote"}}
 \* 6. the account's signers are replaced (the decision is taken against the signers registered BEFORE the transaction)
 ReconfCases(cfg) ==
   IF cfg \notin ReconfCfgs THEN {} ELSE
   {Case(cfg, "signers", s, "none", "self", NoCfg, <<>>, "none", n) : n \in NewCfgs \ {cfg}, s \in SeqsUpTo(FreshSigs(cfg), 2)} \cup
-  {Case(cfg, "signers", SigsOf(Full(cfg), TRUE), "data", "self", NoCfg, <<>>, "none", n) : n \in NewCfgs \ {cfg}}
+  {Case(cfg, "signers", SigsOf(Full(cfg), TRUE), "data", "self", NoCfg, <<>>, "none", n) : n \in NewCfgs \ {cfg}} \cup
+  UNION {KindGpCases(cfg, "signers", n) : n \in NewCfgs \ {cfg}}
 \* the sweep named sl for an account with configuration k.  (The sweeps are enumerated one by one - see Next: TLC builds the union of
 \* large sets of records with a linear search per element.)
-Sweeps == {"sigs", "tamper", "payer", "junk", "box", "kinds", "reconf", "gp"}
+Sweeps == {"sigs", "tamper", "payer", "junk", "box", "kinds", "reconf", "gp", "over"}
 CasesOf(sl, k) == CASE sl = "sigs" -> SigCases(k)
                     [] sl = "tamper" -> {c \in TamperCases(k) : \E i \in 1..Len(c.sigs) : c.sigs[i].old}
                     [] sl = "payer" -> PayerCases(k)
@@ -290,6 +344,7 @@ CasesOf(sl, k) == CASE sl = "sigs" -> SigCases(k)
                     [] sl = "kinds" -> KindCases(k)
                     [] sl = "reconf" -> ReconfCases(k)
                     [] sl = "gp" -> GpCases(k)
+                    [] sl = "over" -> OverCases(k)
                     [] OTHER -> {}
 \* 7. the account's signers were replaced in a recent block that is not stable yet (now: k, in the last stable block: s).  Every non-empty
 \*    subset of the holders registered THEN and of those registered NOW signs a transfer; both sets pay the gas of the reimbursed form
@@ -350,17 +405,21 @@ RECURSIVE ValidOnly(_, _, _)
 ValidOnly(role, c, sigs) == IF sigs = <<>> THEN <<>>
                             ELSE (IF Counts(role, c, Head(sigs)) THEN <<Head(sigs)>> ELSE <<>>) \o ValidOnly(role, c, Tail(sigs))
 \* repeating a signer (same bytes or re-encoded) never turns a refused transaction into an accepted one
+\* (the same case with the sender signatures s: payer statements that were made over the submitted list are made over s)
+WithSigs(c, s) == [c EXCEPT !.sigs = s, !.over = IF c.over = SubmittedList(c) THEN Ident(Len(s)) ELSE c.over]
 CRepeatNeverHelps(k, c, a) ==
-  a => Accepts(k, [c EXCEPT !.sigs = Dedup(ValidOnly("sender", c, c.sigs), {}),
+  a => Accepts(k, [WithSigs(c, Dedup(ValidOnly("sender", c, c.sigs), {})) EXCEPT
                             !.psigs = Dedup(ValidOnly("payer", c, c.psigs), {}),
                             !.f = "none", !.gp0 = c.gp])
 \* no acceptance rests on a foreign key
 NotForeign(s) == s.by # Foreign
 CForeignNeverHelps(k, c, a) ==
-  a => Accepts(k, [c EXCEPT !.sigs = SelectSeq(c.sigs, NotForeign), !.psigs = SelectSeq(c.psigs, NotForeign)])
-\* removing a (well-formed) signature from a multi-signature transaction that is refused never makes it accepted
+  a => Accepts(k, [WithSigs(c, SelectSeq(c.sigs, NotForeign)) EXCEPT !.psigs = SelectSeq(c.psigs, NotForeign)])
+\* removing a (well-formed) signature from a multi-signature transaction that is refused never makes it accepted (unless the removal
+\* restores the very list a payer's statement was made over)
 CRemovalNeverHelps(k, c, a) ==
-  ~a /\ k # <<>> => \A i \in 1..Len(c.sigs) : c.sigs[i].by # Junk => ~Accepts(k, [c EXCEPT !.sigs = Without(c.sigs, i)])
+  ~a /\ k # <<>> /\ (Reimbursed(c) => c.over = SubmittedList(c)) =>
+     \A i \in 1..Len(c.sigs) : c.sigs[i].by # Junk => ~Accepts(k, WithSigs(c, Without(c.sigs, i)))
 \* the encoding of a signature is irrelevant for authorisation
 CEncodingIrrelevant(k, c, a) ==
   Authorized(k, c) <=> Authorized(k, [c EXCEPT !.sigs = [i \in 1..Len(c.sigs) |-> [c.sigs[i] EXCEPT !.v = 0]],
@@ -382,6 +441,9 @@ CPayerBinds(k, c, a) ==
   /\ (Reimbursed(c) /\ c.f \in Covers("payer") /\ \A i \in 1..Len(c.psigs) : c.psigs[i].old) => ~a
   /\ (~Reimbursed(c) /\ PayerAcct(c.gp) # "S") => ~a
   /\ (Reimbursed(c) /\ \A i \in 1..Len(c.psigs) : c.psigs[i].who # PayerAcct(c.gp)) => ~a
+\* the payer's statement binds the WHOLE list of sender signatures, in order: made over another list - the first signature only, a prefix (sender
+\* signatures added since), a longer list (removed since), a re-ordering, the list of another transaction - it authorises nothing
+CPayerBindsSigList(k, c, a) == Reimbursed(c) /\ c.over # SubmittedList(c) => ~a
 \* whoever pays: a changed field has an effect only under a signature made AFTER the change, in the scheme that is read, that covers it (no
 \* field is left to nobody - in particular the gas terms of a reimbursed transaction, also when the sender reimburses itself)
 CChangeCovered(k, c, a) ==
@@ -410,6 +472,7 @@ TamperFalsifies == [][OnOffer(CTamperFalsifies)]_vars
 GasPayerFieldBinds == [][OnOffer(CGasPayerFieldBinds)]_vars
 SchemeBinds == [][OnOffer(CSchemeBinds)]_vars
 PayerBinds == [][OnOffer(CPayerBinds)]_vars
+PayerBindsSigList == [][OnOffer(CPayerBindsSigList)]_vars
 ThresholdExact == [][OnOffer(CThresholdExact)]_vars
 Reconf == [][OnOffer(CReconf)]_vars
 ChangeCovered == [][OnOffer(CChangeCovered)]_vars
